@@ -134,14 +134,19 @@ def tamper_dataset(task: dict) -> dict:
 
         def trial(rel, kind, new_bytes, expected=(), demand=True):
             p = root / rel
+            st0 = p.stat()
             if new_bytes is None:
                 p.unlink()
             else:
                 p.write_bytes(new_bytes)
+                # the alteration keeps the file's time stamps (silent corruption and deliberate tampering both do);
+                # the dataset was written - and hashed - by this very process a moment ago
+                os.utime(p, ns=(st0.st_atime_ns, st0.st_mtime_ns))
             try:
                 raised, how = _check_raises(root, expected)
             finally:
                 p.write_bytes(clean[rel])
+                os.utime(p, ns=(st0.st_atime_ns, st0.st_mtime_ns))
             out["evaluations"] += 1
             cls = "info" if rel == "dataset_info.json" else ("list" if rel.endswith("shards_list.json") else "shard")
             out["cells"].append(f"{cls}|{kind.split(':')[0]}")
